@@ -85,6 +85,7 @@ package data
 //@   assigns  nothing
 
 //@ func (m IntMap) clone() (r IntMap)
+//@   props C15,C14
 //@   ensures  r.data != nil && fresh(r.data)
 //@   ensures  [dom] forall k int :: dom(r.data, k) == dom(m.data, k)
 //@   ensures  [val] forall k int :: r.data[k] == m.data[k]
